@@ -20,6 +20,9 @@ Sub-driver of M-EXPR.  One request per line:
 namespace SaVerif.Drv.Expr
 open SaVerif.Drv SaVerif.Expr SaVerif.Pratt
 
+/-- the driver evaluates only interpreted symbols -/
+instance : Abs := ⟨fun _ _ => .null, fun _ v => v⟩
+
 def parseTy? : String → Option Ty
   | "int" => some .int | "num" => some .num | "str" => some .str | "bool" => some .bool
   | "null" => some .null | _ => none
@@ -334,11 +337,11 @@ def handle : List String → String
         if n == "ia" then litVal a else if n == "ib" then litVal b else if n == "ic" then litVal c
         else .null
       if NumU u then
-        match evalNumU env u with
+        match evalNumU env .sqlite u with
         | .int i => "ok i" ++ toString i
         | .null => "ok N"
         | .str _ => "ok str"
-      else if BoolU u then "ok " ++ tvStr (evalBoolU env u)
+      else if BoolU u then "ok " ++ tvStr (evalBoolU env .sqlite u)
       else "na"
     | _, _, _, _ => "bad-op"
   | "evalin" :: x :: n :: rest =>
